@@ -1,6 +1,18 @@
 HOOK_COMMITS = []
 NOT_APPLICABLE = {}
 META = {
+    "C01": dict(
+        engine="E2 auth + E3 tcp",
+        technique="Lean 4 theorems: snapshot is a permutation, first-match lookup sound and complete, (id,key) multiset invariant over all histories of lookups/marks/updates by induction, authenticator attribution/completeness; tied by differential correspondence with the real authenticator (status, id, snapshot index)",
+        text="Kernel-checked for every key list, client IP, MRU history and interleaving of list operations: the key search fails iff no configured key opens the header, returns a configured entry whose key opens it, never loses or duplicates keys; the authenticator attributes to that entry's id and answers ERR_CIPHER with no side effect otherwise.",
+        note="Trusted: Lean kernel, hand models validated on ~10k authentications per quick run incl. 40-240-key mixed-cipher lists; AEAD strength (KeySeparation) is an explicit hypothesis.",
+    ),
+    "C08": dict(
+        engine="E2 auth + E3 tcp",
+        technique="Lean 4 theorems for every HMAC function (own salt recognised, injective in the random prefix, marked iff salt >= 20 over the generated cipher table, reflected handshake refused for every cache state); generated wiring facts; differential correspondence with server-marked salts built by an independent HMAC implementation",
+        text="Kernel-checked: issued salts are recognised, the reflected-replay refusal does not depend on the replay cache (disabled or nil included) and precedes it; which ciphers are marked is decided over the regenerated table; wiring facts tie the response writer to the matched entry's generator.",
+        note="Freshness itself is probabilistic (RNG contract): pairwise distinctness of real response salts is checked empirically by the tcp campaign. Trusted: Lean kernel, hand model, extractor.",
+    ),
     "C04": dict(
         engine="E4 udp",
         technique="Lean 4 invariant (NatInv) proved by induction over all histories of the NAT-table model (unbounded clients and steps); model tied by differential correspondence with the real packet handler",
